@@ -4,6 +4,10 @@
 // at the root of batch i returns the most recent write in batches 1..i or nothing; reads do not change after
 // later commits nor after close/reopen; a range iteration visits exactly the model's keys in [start,end),
 // once each, in the requested order.  The model is a plain Go map per root and shares no code with the store.
+// Nothing in the property lets an update that is merely pending (MemSet without Commit, an empty batch, an
+// upgrade-mode MemSetUpgrade/CommitUpgrade computation) change what a committed root reads or iterates: pending
+// updates are generated and left in the store's pending table while committed roots are read, then committed
+// (a new version of the model) or rolled back (nothing).
 package c01
 
 import (
@@ -12,6 +16,7 @@ import (
 	"encoding/json"
 	"fmt"
 	"os"
+	"regexp"
 	"sort"
 	"testing"
 
@@ -58,7 +63,7 @@ type bound struct {
 }
 
 type op struct {
-	Op     string   `json:"op"` // commit | redo | check | range | reopen
+	Op     string   `json:"op"` // commit | redo | check | range | reopen | pmemset | presolve | upgrade
 	Parent int      `json:"parent,omitempty"`
 	KVs    []kvSpec `json:"kvs,omitempty"`
 	MemSet bool     `json:"memset,omitempty"` // commit through MemSet+Commit instead of Set
@@ -68,6 +73,12 @@ type op struct {
 	Desc   bool     `json:"desc,omitempty"`
 	Stop   int      `json:"stop,omitempty"` // >0: callback asks to stop after Stop visits
 	Redo   int      `json:"redo,omitempty"`
+	// pmemset: MemSet left pending; KVs may be EMPTY; Like >= 0 repeats the (parent, batch) of an earlier commit, so the
+	// pending root equals an already committed root.  upgrade: MemSetUpgrade+CommitUpgrade (computes, stores nothing).
+	Like *int `json:"like,omitempty"`
+	// presolve: Commit (true) or Rollback (false) of the (Pend mod n)-th pending update
+	Pend       int  `json:"pend,omitempty"`
+	CommitPend bool `json:"commit_pend,omitempty"`
 }
 
 type testCase struct {
@@ -103,6 +114,13 @@ func genVal() *rapid.Generator[[]byte] {
 
 func genBatch(t *rapid.T, maxBatch int) []kvSpec {
 	var n int
+	if maxBatch < 32 { // small batches for updates that stay pending
+		kvs := genBatch(t, 32)
+		if len(kvs) > maxBatch {
+			kvs = kvs[:maxBatch]
+		}
+		return kvs
+	}
 	switch rapid.IntRange(0, 9).Draw(t, "sizeClass") {
 	case 0:
 		n = rapid.IntRange(32, maxBatch).Draw(t, "nBig")
@@ -151,11 +169,31 @@ func genCase(t *rapid.T) testCase {
 		// when a height is written twice; pruning configurations therefore run on the backend nodes use (leveldb).
 		c.Cfg.Driver = "leveldb"
 	}
-	maxSteps, maxBatch := lib.Pick(25, 60), lib.Pick(150, 300)
+	maxSteps, maxBatch := lib.Pick(30, 60), lib.Pick(150, 300)
 	n := rapid.IntRange(4, maxSteps).Draw(t, "nops")
 	for i := 0; i < n; i++ {
 		idx := func(l string) int { return rapid.IntRange(0, 1<<20).Draw(t, l) }
-		switch rapid.SampledFrom([]string{"commit", "commit", "commit", "commit", "commit", "redo", "check", "check", "range", "range", "range", "range", "reopen"}).Draw(t, "op") {
+		switch rapid.SampledFrom([]string{"commit", "commit", "commit", "commit", "commit", "redo", "check", "check", "range", "range", "range", "range", "reopen",
+			"pmemset", "pmemset", "pmemset", "presolve", "presolve", "presolve", "upgrade"}).Draw(t, "op") {
+		case "pmemset", "upgrade":
+			o := op{Op: "pmemset", Parent: -1}
+			if rapid.IntRange(0, 1).Draw(t, "ptip") == 0 {
+				o.Parent = idx("parent")
+			}
+			switch rapid.IntRange(0, 9).Draw(t, "pkind") {
+			case 0, 1, 2, 3: // empty batch: its root is the parent's root
+			case 4, 5: // content that is already committed
+				like := idx("like")
+				o.Like = &like
+			default:
+				o.KVs = genBatch(t, 12)
+			}
+			if rapid.IntRange(0, 3).Draw(t, "upg") == 0 {
+				o.Op = "upgrade"
+			}
+			c.Ops = append(c.Ops, o)
+		case "presolve":
+			c.Ops = append(c.Ops, op{Op: "presolve", Pend: idx("pend"), CommitPend: rapid.Bool().Draw(t, "commitPend")})
 		case "commit":
 			o := op{Op: "commit", KVs: genBatch(t, maxBatch), MemSet: rapid.Bool().Draw(t, "memset")}
 			if rapid.IntRange(0, 2).Draw(t, "tip") == 0 {
@@ -228,6 +266,16 @@ type commitRec struct {
 
 type stats struct {
 	commits, overwrites, bigBatch, oldReads, nonTip, reopens, desc, emptyKey, ffKey, dupInBatch, rangeNonEmpty, ticketClosed int
+	pendEmpty, pendNonEmpty, pendEqualsCommitted, pendCommit, pendRollback, upgEmpty, upgNonEmpty                            int
+	readsWhilePending, rangeWhilePendingOnRoot, pendingAtEnd                                                                 int
+	toleratedKnown                                                                                                           bool
+}
+
+// pendEntry mirrors one entry of the store's pending table (keyed by the hash MemSet returned).
+type pendEntry struct {
+	hash   []byte
+	parent int
+	kvs    []*types.KeyValue // empty: nil marker stored under the parent's state hash
 }
 
 type runner struct {
@@ -239,6 +287,7 @@ type runner struct {
 	byHash  map[string]int
 	commits []commitRec
 	allKeys map[string]bool
+	pend    []*pendEntry // the harness's view of the store's pending table, in creation order
 	st      stats
 }
 
@@ -295,7 +344,17 @@ func (r *runner) apply(parent *version, kvs []*types.KeyValue, memset bool) []by
 	if err != nil || !bytes.Equal(h, h2) {
 		r.fail("Commit(%x) = %x, %v", h, h2, err)
 	}
+	r.dropPending(h) // the pending table is keyed by root: this MemSet replaced, and Commit removed, an equal-root entry
 	return h
+}
+
+func (r *runner) dropPending(h []byte) {
+	for i, p := range r.pend {
+		if bytes.Equal(p.hash, h) {
+			r.pend = append(r.pend[:i], r.pend[i+1:]...)
+			return
+		}
+	}
 }
 
 func (r *runner) commit(o op) {
@@ -305,7 +364,12 @@ func (r *runner) commit(o op) {
 	}
 	parent := r.vers[pi]
 	kvs := r.resolveBatch(parent, o.KVs)
-	root := r.apply(parent, kvs, o.MemSet)
+	r.record(pi, kvs, r.apply(parent, kvs, o.MemSet))
+}
+
+// record enters a committed batch in the model and checks the new root against it.
+func (r *runner) record(pi int, kvs []*types.KeyValue, root []byte) {
+	parent := r.vers[pi]
 	if len(root) != 32 {
 		r.fail("commit returned root %x (want 32 bytes)", root)
 	}
@@ -523,7 +587,48 @@ func (r *runner) resolveBound(v *version, b *bound, isEnd bool) []byte {
 	return k
 }
 
-func runCase(t lib.TB, c testCase) stats {
+// Known finding C02-memtree-pending-poison (pinned and explained in harness/c02_rootdet): with key prefixing and the
+// node cache, nodes of merely computed trees (pending MemSet, MemSetUpgrade) shadow committed nodes in the process-global
+// cache and point at children that were never written.  While it is listed, a case that stops with exactly its
+// signature is counted as excluded: prefix/prune + memTree configuration, >= 1 non-empty pending or upgrade-mode batch
+// executed, panic "(left|right) hash 0x<height-prefixed key> ErrNodeNotExist", that key absent from the database and a
+// record with the same 32-byte content hash present under another key.  Not listed: the panic is a violation.
+const knownPoison = "C02-memtree-pending-poison"
+
+var missingNodeRe = regexp.MustCompile(`(?:left|right) hash 0x([0-9a-f]+) ErrNodeNotExist`)
+
+func (r *runner) poisonSignature(panicMsg string) bool {
+	c := r.c.Cfg
+	if !(c.Prefix || c.Prune) || !c.MemTree || r.st.pendNonEmpty+r.st.upgNonEmpty == 0 {
+		return false
+	}
+	m := missingNodeRe.FindStringSubmatch(panicMsg)
+	if m == nil {
+		return false
+	}
+	key, err := hex.DecodeString(m[1])
+	if err != nil || len(key) <= 32 {
+		return false
+	}
+	db := r.fx.store.GetDB()
+	if v, _ := db.Get(key); len(v) > 0 {
+		return false
+	}
+	raw := key[len(key)-32:]
+	if v, _ := db.Get(raw); len(v) > 0 { // twin stored without prefix (it once was a root)
+		return true
+	}
+	it := db.Iterator(key[:5], nil, false) // "_mb_-" or "_mh_-"
+	defer it.Close()
+	for it.Rewind(); it.Valid(); it.Next() {
+		if bytes.HasSuffix(it.Key(), raw) && !bytes.Equal(it.Key(), key) {
+			return true
+		}
+	}
+	return false
+}
+
+func runCase(t lib.TB, c testCase) (st stats) {
 	dir, err := os.MkdirTemp("", "c01-")
 	if err != nil {
 		lib.Inconclusive("tempdir: %v", err)
@@ -533,6 +638,17 @@ func runCase(t lib.TB, c testCase) stats {
 	r.vers = []*version{{kv: map[string][]byte{}}}
 	r.fx.open()
 	defer func() { r.fx.close() }()
+	defer func() { // registered last: runs while the store is still open
+		if e := recover(); e != nil {
+			if lib.Known(knownPoison) && r.poisonSignature(fmt.Sprint(e)) {
+				lib.ExcludedKnown(knownPoison)
+				r.st.toleratedKnown = true
+				st = r.st
+				return
+			}
+			panic(e) // everything else (including rapid's own control-flow panics) is passed on untouched
+		}
+	}()
 	for i, o := range c.Ops {
 		r.step = i
 		switch o.Op {
@@ -551,6 +667,7 @@ func runCase(t lib.TB, c testCase) stats {
 			if o.Root%len(r.vers) != len(r.vers)-1 {
 				r.st.oldReads++
 			}
+			r.notePendingRead(o.Root%len(r.vers), false)
 			r.verify(o.Root%len(r.vers), false)
 		case "range":
 			vi := o.Root % len(r.vers)
@@ -560,15 +677,21 @@ func runCase(t lib.TB, c testCase) stats {
 			if o.Desc {
 				r.st.desc++
 			}
+			r.notePendingRead(vi, true)
 			if r.iterate(vi, r.resolveBound(r.vers[vi], o.Start, false), r.resolveBound(r.vers[vi], o.End, true), o.Desc, o.Stop) > 0 {
 				r.st.rangeNonEmpty++
 			}
+		case "pmemset", "upgrade":
+			r.pending(o)
+		case "presolve":
+			r.resolvePending(o)
 		case "reopen":
 			if c.Cfg.Driver != "leveldb" {
 				continue
 			}
 			r.fx.close()
 			r.fx.open()
+			r.pend = nil // pending updates live in memory only
 			r.st.reopens++
 			r.st.oldReads += len(r.vers) - 1
 			for vi := range r.vers {
@@ -576,12 +699,128 @@ func runCase(t lib.TB, c testCase) stats {
 			}
 		}
 	}
-	// every version ever committed still reads as the model says
+	// every version ever committed still reads as the model says (pending updates that were never resolved,
+	// and the markers upgrade-mode batches leave behind, are still in the store's table here)
 	r.step = len(c.Ops) - 1
+	r.st.pendingAtEnd = len(r.pend)
 	for vi := range r.vers {
 		r.verify(vi, true)
 	}
 	return r.st
+}
+
+// notePendingRead counts reads issued while the pending table is non-empty, and range reads of a committed root
+// whose hash is a key of the pending table (the parent of an empty pending batch, or a root equal to a pending one).
+func (r *runner) notePendingRead(vi int, isRange bool) {
+	if len(r.pend) == 0 {
+		return
+	}
+	r.st.readsWhilePending++
+	for _, p := range r.pend {
+		if isRange && bytes.Equal(p.hash, r.stateHash(r.vers[vi])) {
+			r.st.rangeWhilePendingOnRoot++
+		}
+	}
+}
+
+// pending runs a MemSet that stays pending (or an upgrade-mode MemSetUpgrade+CommitUpgrade, which computes a root and
+// stores nothing) and then reads the committed roots it could disturb: its parent and the committed root equal to
+// the pending root, by point reads and by iteration in both directions and over a sub-range.
+func (r *runner) pending(o op) {
+	pi := len(r.vers) - 1
+	if o.Parent >= 0 {
+		pi = o.Parent % len(r.vers)
+	}
+	kvs := r.resolveBatch(r.vers[pi], o.KVs)
+	if o.Like != nil && len(r.commits) > 0 {
+		cr := r.commits[*o.Like%len(r.commits)]
+		pi, kvs = cr.parent, cr.kvs
+	}
+	parent := r.vers[pi]
+	set := &types.StoreSet{StateHash: r.stateHash(parent), KV: kvs, Height: parent.height + 1}
+	var h []byte
+	var err error
+	if o.Op == "upgrade" {
+		if h, err = r.fx.store.MemSetUpgrade(set, false); err == nil {
+			_, err = r.fx.store.CommitUpgrade(&types.ReqHash{Hash: h, Upgrade: true})
+		}
+		if len(kvs) == 0 {
+			r.st.upgEmpty++
+		} else {
+			r.st.upgNonEmpty++
+		}
+	} else {
+		h, err = r.fx.store.MemSet(set, false)
+	}
+	if err != nil {
+		r.fail("%s on committed root#%d %x failed: %v", o.Op, pi, parent.hash, err)
+	}
+	if len(kvs) == 0 && !bytes.Equal(h, set.StateHash) {
+		r.fail("%s of an empty batch on root#%d %x returned %x", o.Op, pi, parent.hash, h)
+	}
+	if o.Op == "pmemset" || len(kvs) == 0 { // an empty upgrade-mode batch leaves its marker in the table as well
+		r.dropPending(h)
+		r.pend = append(r.pend, &pendEntry{hash: h, parent: pi, kvs: kvs})
+	}
+	if o.Op == "pmemset" {
+		switch {
+		case len(kvs) == 0:
+			r.st.pendEmpty++
+		default:
+			r.st.pendNonEmpty++
+		}
+	}
+	touched := []int{pi}
+	if vi, ok := r.byHash[string(h)]; ok && vi != pi {
+		touched = append(touched, vi)
+		if o.Op == "pmemset" {
+			r.st.pendEqualsCommitted++
+		}
+	}
+	for _, vi := range touched {
+		r.readAround(vi)
+	}
+}
+
+// readAround: point reads + full ascending iteration (verify), full descending iteration, and one inner sub-range.
+func (r *runner) readAround(vi int) {
+	r.notePendingRead(vi, true)
+	r.verify(vi, false)
+	if len(r.vers[vi].kv) <= 400 {
+		r.iterate(vi, nil, nil, true, 0)
+		if ks := sortedKeys(r.vers[vi].kv); len(ks) >= 2 {
+			r.iterate(vi, []byte(ks[len(ks)/3]), []byte(ks[len(ks)-1]), r.step%2 == 0, 0)
+		}
+	}
+}
+
+// resolvePending commits or rolls back one pending update; a committed non-empty one becomes a version of the model.
+func (r *runner) resolvePending(o op) {
+	if len(r.pend) == 0 {
+		return
+	}
+	i := o.Pend % len(r.pend)
+	p := r.pend[i]
+	r.pend = append(r.pend[:i], r.pend[i+1:]...)
+	var h []byte
+	var err error
+	if o.CommitPend {
+		h, err = r.fx.store.Commit(&types.ReqHash{Hash: p.hash})
+		r.st.pendCommit++
+	} else {
+		h, err = r.fx.store.Rollback(&types.ReqHash{Hash: p.hash})
+		r.st.pendRollback++
+	}
+	if err != nil || !bytes.Equal(h, p.hash) {
+		r.fail("commit=%v of pending update %x (parent root#%d, %d writes) = %x, %v", o.CommitPend, p.hash, p.parent, len(p.kvs), h, err)
+	}
+	if o.CommitPend && len(p.kvs) > 0 {
+		r.record(p.parent, p.kvs, p.hash)
+	}
+	r.readAround(p.parent)
+	if vi, ok := r.byHash[string(p.hash)]; ok && vi != p.parent {
+		r.readAround(vi)
+	}
 }
 
 func TestPropVersionedMap(t *testing.T) {
@@ -612,6 +851,17 @@ func TestPropVersionedMap(t *testing.T) {
 		cls(c.Cfg.Prefix || c.Cfg.Prune, "cfg_prefix")
 		cls(c.Cfg.Prune, "cfg_prune")
 		cls(c.Cfg.Driver == "leveldb", "leveldb")
+		cls(st.pendEmpty > 0, "pending_empty_batch")
+		cls(st.pendNonEmpty > 0, "pending_nonempty_batch")
+		cls(st.pendEqualsCommitted > 0, "pending_root_equals_committed_root")
+		cls(st.pendCommit > 0, "pending_committed")
+		cls(st.pendRollback > 0, "pending_rolled_back")
+		cls(st.upgEmpty > 0, "upgrade_mode_empty_batch")
+		cls(st.upgNonEmpty > 0, "upgrade_mode_nonempty_batch")
+		cls(st.readsWhilePending > 0, "read_while_pending")
+		cls(st.rangeWhilePendingOnRoot > 0, "range_of_root_keyed_in_pending_table")
+		cls(st.pendingAtEnd > 0, "pending_left_at_end")
+		cls(st.toleratedKnown, "stopped_by_known_finding")
 		// non-trivial: >= 3 commits, a read at a non-newest root, and an overwrite or a batch >= 32 keys
 		if st.commits >= 3 && st.oldReads > 0 && (st.overwrites > 0 || st.bigBatch > 0) {
 			lib.NonTrivialCase(c)
